@@ -1,23 +1,29 @@
-(* Proofs/HashMemoEx.v — C13, the hash memo: the invariant [HashOk] of CmpLaws is
-   NOT an invariant of a fault-free build.  Counterexamples, computed in the
-   mechanism model (and reproduced on the Python implementation, see the report):
+(* Proofs/HashMemoEx.v — C13, the hash memo: defect D15 and its repair.
 
-   a memo entry is keyed by the path and by "has the path been claimed in the new
-   cache" (cache_has_file (w_new w) p).  The flag flips when the path is claimed,
-   which happens before user code writes the file, so an entry made before the
-   claim is dead afterwards.  But while the path is claimed and its function is
-   still running, the flag stays [true]: an entry memoised in that window — by
-   _is_build_file_operation_cached replaying an old record that mentions the
-   path, which compares the file on disk BEFORE it checks that the path is
-   already claimed — is keyed [true], and it is served when the comparison result
-   of the finished output is computed, although the function has rewritten the
-   file in between.
+   THE DEFECT (before commit 502c9b4 of /repo).  A memo entry is keyed by the path
+   and by "has the path been claimed in the new cache"
+   (cache_has_file (w_new w) p).  The flag flips when the path is claimed, which
+   happens before user code writes the file, so an entry made before the claim
+   is dead afterwards.  But while the path is claimed and its function is still
+   running, the flag stays [true]: an entry memoised in that window is keyed
+   [true], and it is served when the comparison result of the finished output is
+   computed — and to every later read_text(p, HASH) — although the function has
+   rewritten the file in between.  One routine did memoise in that window:
+   _is_build_file_operation_cached, replaying an old record that mentions the
+   path, compared the file on disk BEFORE it checked that the path is already
+   claimed.  No external modification, no fault, user code writes only its own
+   target.  Consequence (section 3, as it was): an incremental build differing
+   from a fresh one.
 
-   No external modification, no fault, user code writes only its own target. *)
-(* Reproduction on the implementation (file_builder at /repo, HEAD 2001e1b), same
-   history as section 2 below; prints r = 'r:B' after the third (incremental)
-   build and r = 'r:X' for the same program on the same foreign files from an
-   empty cache:
+   THE REPAIR: the claim test comes first.  Section 1 keeps the old replay routine
+   as a local copy [is_op_cached_old] and shows, in one world of the
+   counterexample history, what it did and what the repaired routine does.
+   Sections 2 and 3 are the two histories of the counterexample, now regression
+   examples on the repaired model. *)
+(* Reproduction on the implementation BEFORE the repair (file_builder at /repo,
+   commit 2001e1b), same history as section 3 below; it printed r = 'r:B' after
+   the third (incremental) build and r = 'r:X' for the same program on the same
+   foreign files from an empty cache; since commit 502c9b4 it prints r:X twice:
 
      import os, sys, tempfile
      sys.path.insert(0, "/repo")
@@ -55,8 +61,7 @@
      FileBuilder.build(os.path.join(root2, "cache"), "n", program(root2))
      print(open(os.path.join(root2, "r")).read())                     # r:X
 
-   A repair that was tried on a copy of the implementation (reproduction fixed,
-   the package's 138 unit tests still pass): in
+   The repair (commit 502c9b4 of /repo, and Model/Builder.v [is_op_cached]): in
    FileBuilder._is_build_file_operation_cached, test
    "new cache has the file, or it is the cache file -> return False" BEFORE the
    test that compares the file on disk (_is_build_file_cached); then a replay
@@ -66,11 +71,12 @@ From Coq Require Import List String NArith ZArith Bool Arith.
 From FB.Base Require Import PyVal Fs.
 From FB.Gen Require Import JsonUtilGen.
 From FB.Spec Require Import Prog.
-From FB.Model Require Import Types Monad SimpleOps Builder Persist Build Run Dsl.
-From FB.Proofs Require Import CmpLaws.
+From FB.Model Require Import Types Monad CreatedFiles BuildDirs SimpleOps Builder Persist Build Run Dsl.
+From FB.Proofs Require Import FsLemmas CmpLaws ReplayLaws BuildFileLaws HashMemoInv.
 Import ListNotations.
 Local Open Scope string_scope.
 Local Open Scope list_scope.
+Local Open Scope m_scope.
 
 Module HashMemoEx.
 
@@ -83,10 +89,6 @@ Definition CF : path := ["cache"].
 Definition E : pyval := PList [].
 Definition K : pyval := PDict [].
 Definition V : pyval := PDict [].
-
-(* ------------------------------------------------------------------ *)
-(* 1. A stale entry is served                                          *)
-(* ------------------------------------------------------------------ *)
 
 (* fq builds p (content "A") and then writes q *)
 Definition fq : path -> pyval -> pyval -> prog :=
@@ -101,38 +103,155 @@ Definition fp2 : path -> pyval -> pyval -> prog :=
 Definition root2 : prog := BuildFile false P HASH "fp2" E K fp2 (fun _ => Ret PNone).
 
 Definition w1 : world := fst (run_build CF "n" V root1 init_world).
+
+(* a checkable form of HashOk for concrete worlds *)
+Definition hash_is (h : pyval) (bytes : string) : bool :=
+  match h with PStr s => String.eqb s ("sha256:" ++ bytes) | _ => false end.
+Definition hashok_b (w : world) : bool :=
+  forallb (fun e =>
+             match hash_get (w_hash w) (fst e) with
+             | Some (h, b) =>
+                 if Bool.eqb b (cache_has_file (w_new w) (fst e)) then
+                   match lookup (w_fs w) (fst e) with
+                   | Some (NFile f) => hash_is h (f_bytes f)
+                   | _ => true
+                   end
+                 else true
+             | None => true
+             end) (w_hash w).
+
+Lemma hashok_b_sound : forall w, hashok_b w = true -> HashOk w.
+Proof.
+  intros w H p h b f Hg Hb Hl. unfold hashok_b in H. rewrite forallb_forall in H.
+  specialize (H _ (hash_get_In _ _ _ Hg)). cbn [fst] in H. rewrite Hg, Hl in H.
+  rewrite Hb, eqb_reflx in H. destruct h; try discriminate H. cbn [hash_is] in H.
+  apply String.eqb_eq in H. subst. reflexivity.
+Qed.
+
+(* ------------------------------------------------------------------ *)
+(* 1. The old replay routine, and what the repair changes               *)
+(* ------------------------------------------------------------------ *)
+
+(* Model/Builder.v [is_op_cached] as it was before the repair: the test
+   "claimed, or the cache file" came AFTER the comparison of the file *)
+Fixpoint is_op_cached_old (o : op) (cf : cfiles) {struct o} : M (bool * cfiles) :=
+  let subs_cached :=
+    fix go (subs : list op) (cf : cfiles) {struct subs} : M (bool * cfiles) :=
+      match subs with
+      | [] => ret (true, cf)
+      | s :: rest =>
+          r <- is_op_cached_old s cf ;;
+          if fst r then go rest (snd r) else ret (false, snd r)
+      end in
+  match o with
+  | OSimple q ret_ ex => b <- is_simple_operation_cached q ret_ ex cf ;; ret (b, cf)
+  | OBuildFile p c fname _ _ subs _ cmpres raised sf =>
+      ve <- version_equal fname ;;
+      if negb ve then ret (false, cf) else
+      ok <- (if raised then ret true else is_build_file_cached p c cmpres) ;;
+      if negb ok then ret (false, cf) else
+      w <- get ;;
+      if raised && lexists (w_fs w) p then ret (false, cf) else
+      if sf then ret (false, cf) else
+      if cache_has_file (w_new w) p || path_eqb p (w_cachefile w) then ret (false, cf) else
+      d <- attempt (dirs_to_make (dirname p) (Some cf)) ;;
+      match d with
+      | inr e => if is_os e then ret (false, cf) else raise e
+      | inl _ =>
+          let cf1 := cf_started cf p in
+          r <- subs_cached subs cf1 ;;
+          if negb (fst r) then ret (false, snd r) else
+          if raised then
+            match cf_error (snd r) p with
+            | Some cf2 => ret (true, cf2)
+            | None => raise (XCrash "KeyError in CreatedFiles.error_building_file")
+            end
+          else ret (true, cf_finished (snd r) p)
+      end
+  | OSubbuild fname a k subs _ raised sf =>
+      ve <- version_equal fname ;;
+      if negb ve || sf then ret (false, cf) else
+      w <- get ;;
+      if cache_has_subbuild (w_new w) (subbuild_key fname a k) then ret (false, cf) else
+      subs_cached subs cf
+  end.
+
+Local Close Scope m_scope.
+
+(* the world of the second build in which fp2 has written "X" and calls
+   build_file(q): p is claimed and in progress *)
+Definition old2 : cache :=
+  match lookup (w_fs w1) CF with
+  | Some (NFile f) => match cache_of_json (f_json f) with ReadOk c => c | _ => empty_cache "n" V end
+  | _ => empty_cache "n" V
+  end.
+Definition w_user : world :=
+  let w_d := fst (make_dirs (dirname CF) (start_world w1 CF old2 "n" V)) in
+  set_log (LInvoke "<root>" None PNone PNone :: w_log w_d) w_d.
+Definition w_claimed : world := fst (bf_setup P HASH "fp2" E K w_user).
+Definition w_mid : world :=
+  fst (run (Write "X" (Ret PNone)) (Some P) [] (bf_invoke_world P "fp2" E K w_claimed)).
+(* the record of p inside the record of q in the cache of the first build *)
+Definition rec_p : op := OBuildFile P HASH "fp" E K [] PNone (hash_of "A") false false.
+
+Theorem old_replay_memoised_a_target_in_progress :
+  cache_get_file old2 Q = Some (OBuildFile Q HASH "fq" E K [rec_p] PNone (hash_of "Q") false false) /\
+  files_get (c_files (w_new w_mid)) P = Some None /\
+  (exists f, lookup (w_fs w_mid) P = Some (NFile f) /\ f_bytes f = "X") /\
+  hash_get (w_hash w_mid) P = None /\
+  (* before the repair: "not cached", and an entry keyed "built" for p *)
+  snd (is_op_cached_old rec_p cf_empty w_mid) = inl (false, cf_empty) /\
+  hash_get (w_hash (fst (is_op_cached_old rec_p cf_empty w_mid))) P = Some (hash_of "X", true) /\
+  (* after the repair: "not cached", and the memo untouched *)
+  snd (is_op_cached rec_p cf_empty w_mid) = inl (false, cf_empty) /\
+  w_hash (fst (is_op_cached rec_p cf_empty w_mid)) = w_hash w_mid.
+Proof. vm_compute. repeat split. eexists. split; reflexivity. Qed.
+
+(* with that entry, the next write of the function breaks HashOk
+   (HashMemoInv.write_breaks_HashOk) *)
+Theorem old_replay_then_write_breaks_HashOk :
+  let w := fst (is_op_cached_old rec_p cf_empty w_mid) in
+  exists fs', write_file (w_fs w) P "B" None (N.succ (w_clock w)) (w_nextid w) = inl fs' /\
+              ~ HashOk (set_clock (N.succ (w_clock w)) (N.succ (w_nextid w)) (set_fs fs' w)).
+Proof.
+  cbv zeta. set (w := fst (is_op_cached_old rec_p cf_empty w_mid)).
+  destruct (write_file (w_fs w) P "B" None (N.succ (w_clock w)) (w_nextid w)) as [fs'|e] eqn:Ew.
+  2:{ vm_compute in Ew. discriminate Ew. }
+  exists fs'. split; [reflexivity|].
+  apply (write_breaks_HashOk w P "B" fs' (hash_of "X") Ew).
+  - vm_compute. reflexivity.
+  - discriminate.
+Qed.
+
+(* ------------------------------------------------------------------ *)
+(* 2. Regression: the first history on the repaired model               *)
+(* ------------------------------------------------------------------ *)
+
 Definition b2 : world * build_result := run_build CF "n" V root2 w1.
 Definition w2 : world := fst b2.
 
-(* both builds succeed; after the second one p holds "B", but the record of p in
-   the committed cache carries the hash of "X", and the memo still holds the
-   entry (sha256:X, built) for p: HashOk fails in the world the build ends in
-   (it failed from the second Write on) *)
-Theorem stale_entry_served :
+(* both builds succeed; p holds "B" and its committed record carries the hash of
+   "B"; the memo holds that hash for p; HashOk holds in the final world
+   (before the repair: hash of "X" in the record and in the memo, HashOk false) *)
+Theorem regression_record_carries_final_hash :
   snd (run_build CF "n" V root1 init_world) = Done (inl PNone) /\
   snd b2 = Done (inl PNone) /\
   (exists f, lookup (w_fs w2) P = Some (NFile f) /\ f_bytes f = "B") /\
   (exists subs, cache_get_file (w_new w2) P =
-                Some (OBuildFile P HASH "fp2" E K subs PNone (hash_of "X") false false)) /\
-  hash_get (w_hash w2) P = Some (hash_of "X", true) /\
-  cache_has_file (w_new w2) P = true /\
-  ~ HashOk w2.
+                Some (OBuildFile P HASH "fp2" E K subs PNone (hash_of "B") false false)) /\
+  hash_get (w_hash w2) P = Some (hash_of "B", true) /\
+  HashOk w2.
 Proof.
-  assert (L : lookup (w_fs w2) P =
-              Some (NFile {| f_bytes := "B"; f_mtime := 5; f_id := 4; f_json := None |}))
-    by (vm_compute; reflexivity).
-  assert (H1 : hash_get (w_hash w2) P = Some (hash_of "X", true)) by (vm_compute; reflexivity).
-  assert (H2 : cache_has_file (w_new w2) P = true) by (vm_compute; reflexivity).
   split; [vm_compute; reflexivity|].
   split; [vm_compute; reflexivity|].
-  split; [eexists; split; [exact L | reflexivity]|].
+  split; [vm_compute; eexists; split; reflexivity|].
   split; [vm_compute; eexists; reflexivity|].
-  split; [exact H1|]. split; [exact H2|].
-  intro Hok. specialize (Hok P _ _ _ H1 (eq_sym H2) L). discriminate Hok.
+  split; [vm_compute; reflexivity|].
+  apply hashok_b_sound. vm_compute. reflexivity.
 Qed.
 
 (* ------------------------------------------------------------------ *)
-(* 2. The consequence: an incremental build differs from a fresh one   *)
+(* 3. Regression: the second history (incremental = fresh)              *)
 (* ------------------------------------------------------------------ *)
 
 (* ONE deterministic program, run three times; between the builds only two
@@ -163,12 +282,11 @@ Definition bS := run_build CF "n" V root init_world.                    (* no fl
 Definition bytes_at (w : world) (p : path) : option string :=
   match lookup (w_fs w) p with Some (NFile f) => Some (f_bytes f) | _ => None end.
 
-(* In build B the stale entry for p (hash of "X" while p holds "B") is served to
-   read_text(p, HASH) inside fr: r is made from "B" but its record says it read a
-   file whose hash is that of "X".  In build C p really holds "X", the record of r
-   validates, and r is served from the cache with the content made from "B".
-   The same program on the same foreign files from an empty cache gives "r:X". *)
-Theorem stale_entry_breaks_transparency :
+(* Build B: r is made from "B" and its record says it read a file whose hash is
+   that of "B".  Build C: p holds "X", the record of r does not validate, r is
+   rebuilt: "r:X", as from an empty cache.  (Before the repair: the record of r
+   in build B said hash of "X", and build C served r = "r:B" from the cache.) *)
+Theorem regression_incremental_equals_fresh :
   snd bA = Done (inl PNone) /\ snd bB = Done (inl PNone) /\
   snd bC = Done (inl PNone) /\ snd bS = Done (inl PNone) /\
   bytes_at (fst bB) P = Some "B" /\ bytes_at (fst bB) R = Some "r:B" /\
@@ -176,14 +294,18 @@ Theorem stale_entry_breaks_transparency :
   bytes_at (fst bC) Q = Some "Q" /\ bytes_at (fst bS) Q = Some "Q" /\
   bytes_at (fst bC) F1 = None /\ bytes_at (fst bS) F1 = None /\
   bytes_at (fst bC) F2 = None /\ bytes_at (fst bS) F2 = None /\
-  bytes_at (fst bC) R = Some "r:B" /\
+  bytes_at (fst bC) R = Some "r:X" /\
   bytes_at (fst bS) R = Some "r:X".
 Proof. vm_compute. repeat split. Qed.
 
-(* the record of r written by build B: a read of p with the hash of "X" *)
-Theorem stale_entry_recorded_in_reader :
+(* the record of r written by build B: a read of p with the hash of "B" *)
+Theorem regression_reader_records_hash_of_bytes_seen :
   exists cr, cache_get_file (w_new (fst bB)) R =
-    Some (OBuildFile R HASH "fr" E K [OSimple (QRead P HASH) (hash_of "X") None] PNone cr false false).
+    Some (OBuildFile R HASH "fr" E K [OSimple (QRead P HASH) (hash_of "B") None] PNone cr false false).
 Proof. vm_compute. eexists. reflexivity. Qed.
+
+Theorem regression_HashOk_final_worlds :
+  HashOk (fst bA) /\ HashOk (fst bB) /\ HashOk (fst bC) /\ HashOk (fst bS).
+Proof. repeat split; apply hashok_b_sound; vm_compute; reflexivity. Qed.
 
 End HashMemoEx.
